@@ -54,6 +54,11 @@ def c_zero(a):
     return not a[0]
 
 
+def freeze_vec(v):
+    """hashable, order-independent copy of a vector value"""
+    return tuple(sorted(((k, (tuple(sorted(c[0].items(), key=repr)), tuple(sorted(c[1].items(), key=repr)))) for k, c in v.items()), key=repr))
+
+
 def v_add(a, b, s=1):
     out = dict(a)
     for k, c in b.items():
@@ -75,6 +80,7 @@ def v_eq(a, b):
 
 class Model:
     """Abstract state of one pass over a solver's loop body."""
+    _vc = 0     # versions of scalar locals are unique over all paths (two arms of an `if` never share one)
 
     def __init__(self, pdb, fn, ctx, vec_vars, assume=None, hyps=()):
         self.pdb, self.fn, self.ctx = pdb, fn, ctx
@@ -89,6 +95,8 @@ class Model:
         self.log = []
         self.dots = {}                    # id(dot call node) -> (node, value of operand 1, value of operand 2) at evaluation time
         self.norms = {}                   # id(norm_2 call node) -> (node, value of the vector) at evaluation time
+        self.cstack = []                  # versioned conditions (term, polarity) of the enclosing ifs of the statement being run
+        self.sdef = {}                    # (scalar var id, version) -> rational value at the assignment (None: a merge of two paths)
 
     # ---- scalars
     def scalar(self, t):
@@ -119,7 +127,7 @@ class Model:
             return t
         if t and t[0] == "var" and len(t) == 2:
             if t in self.vec_vars:
-                return ("vecstate", t, tuple(sorted((repr(k), repr(c)) for k, c in self.vec[t].items())))
+                return ("vecstate", t, freeze_vec(self.vec[t]))
             return ("sv", t[1], self.ver.get(t[1], 0))
         return tuple(self._versioned(x) if isinstance(x, tuple) else x for x in t)
 
@@ -244,14 +252,27 @@ class Model:
             if pat.get("k") != "Bind":
                 raise Unclassified("let pattern")
             v = ("var", pat["v"])
+            self.effects_of(s["init"])
             self.scan(s["init"])
             t = self.term_now(s["init"])
             if v in self.vec_vars:
                 self.vec[v] = self.vecval(t)
             else:
-                self.ver[v[1]] = self.ver.get(v[1], 0) + 1
+                self._define(v[1], t)
             return True
         return self.expr_stmt(strip(s["e"]))
+
+    def _define(self, vid, t):
+        """A scalar local gets a new version; its value (a rational function of the versions current now) is kept."""
+        val = None
+        if t is not None:
+            try:
+                val = self.scalar(t)
+            except Exception:
+                val = None
+        Model._vc += 1
+        self.ver[vid] = Model._vc
+        self.sdef[(vid, self.ver[vid])] = val
 
     def term_now(self, n):
         """Term of n in which immutable-let locals that the normaliser inlined are fine (their inputs are
@@ -264,12 +285,13 @@ class Model:
             return True
         if k == "Assign":
             v = self.lval(e["l"])
+            self.effects_of(e["r"])
             self.scan(e["r"])
             t = self.term_now(e["r"])
             if v in self.vec_vars:
                 self.vec[v] = self.vecval(t)
             elif v[0] == "var":
-                self.ver[v[1]] = self.ver.get(v[1], 0) + 1
+                self._define(v[1], t)
             else:
                 raise Unclassified("assignment to %s" % (v,))
             return True
@@ -289,7 +311,8 @@ class Model:
                 else:
                     raise Unclassified("compound op %s on a vector" % e["op"])
             elif v[0] == "var":
-                self.ver[v[1]] = self.ver.get(v[1], 0) + 1
+                op_ = e["op"].rstrip("=")
+                self._define(v[1], ("op", op_, v, t) if op_ in ("+", "-", "*", "/") else None)
             else:
                 raise Unclassified("compound assignment to %s" % (v,))
             return True
@@ -317,7 +340,18 @@ class Model:
                 if a0.get("k") == "AddrOf" and a0.get("mut") and self.ctx.term(a0["e"]) in self.vec_vars:
                     raise Unclassified("call %s mutates a tracked vector" % callee_path(e))
             return True
+        if k in ("Local", "Lit", "Binary", "Unary", "Field", "Def", "Cast", "Tup", "AddrOf", "Index", "Path"):
+            self.scan(e)          # the value of a block: no effect on the tracked state
+            return True
         raise Unclassified("statement kind %s" % k)
+
+    def effects_of(self, init):
+        """`let n = if c { stmts; v } else { .. }` (an inlined helper): the statements inside the value expression act on the
+        tracked state before the binding is made."""
+        i0 = strip(init)
+        if i0.get("k") in ("If", "Block") and any(x.get("k") in ("Assign", "AssignOp", "Let") or (x.get("k") == "MethodCall" and is_idp(callee_path(x)))
+                                                   for x in walk(i0) if x is not i0):
+            self.expr_stmt(i0)
 
     def exit(self, ret):
         val = strip(ret["e"]) if ret.get("e") is not None else None
@@ -326,7 +360,7 @@ class Model:
             p = val["f"].get("fn", "")
             kind = "ok" if p.endswith("::Ok") else ("err" if p.endswith("::Err") else "other")
             payload = val["args"][0] if val.get("args") else None
-        self.exits.append((kind, ret, {v: dict(c) for v, c in self.vec.items()}, dict(self.ver), payload))
+        self.exits.append((kind, ret, {v: dict(c) for v, c in self.vec.items()}, dict(self.ver), payload, list(self.cstack)))
 
     def if_stmt(self, e):
         self.scan(e["cond"])
@@ -345,18 +379,30 @@ class Model:
         if diverges(then) and els is None:
             # an early exit: evaluate it on a copy, continue with the fall-through state
             snap = ({v: dict(c) for v, c in self.vec.items()}, dict(self.ver))
-            self.cur_if = e
-            self.run_block(strip(then))
+            self.cstack.append((self._versioned(cond_t), True))
+            try:
+                self.run_block(strip(then))
+            finally:
+                self.cstack.pop()
             self.vec, self.ver = snap[0], snap[1]
             return True
         # general two-way branch that falls through: `if normb == 0.0 { normb = 1.0 }`, `if itol == 1 { err = .. }`
+        cond_v = self._versioned(cond_t)
         snap = ({v: dict(c) for v, c in self.vec.items()}, dict(self.ver))
-        ft1 = self.run_block(strip(then)) if strip(then).get("k") == "Block" else self.expr_stmt(strip(then))
+        self.cstack.append((cond_v, True))
+        try:
+            ft1 = (self.run_block(strip(then)) if strip(then).get("k") == "Block" else self.expr_stmt(strip(then))) and not diverges(then)
+        finally:
+            self.cstack.pop()
         s1 = (self.vec, self.ver)
         self.vec, self.ver = {v: dict(c) for v, c in snap[0].items()}, dict(snap[1])
         ft2 = True
         if els is not None:
-            ft2 = self.run_block(strip(els)) if strip(els).get("k") == "Block" else self.expr_stmt(strip(els))
+            self.cstack.append((cond_v, False))
+            try:
+                ft2 = (self.run_block(strip(els)) if strip(els).get("k") == "Block" else self.expr_stmt(strip(els))) and not diverges(els)
+            finally:
+                self.cstack.pop()
         s2 = (self.vec, self.ver)
         # merge: vectors must agree (else unknown), scalar versions take the max and bump if they differ
         if ft1 and ft2:
@@ -365,7 +411,12 @@ class Model:
                     self.vec[v] = {("phi", v, e.get("id")): c_const(1)}
             for sv in set(s1[1]) | set(s2[1]):
                 a, b = s1[1].get(sv, 0), s2[1].get(sv, 0)
-                self.ver[sv] = max(a, b) + (1 if a != b else 0)
+                if a == b:
+                    self.ver[sv] = a
+                else:
+                    Model._vc += 1
+                    self.ver[sv] = Model._vc
+                    self.sdef[(sv, Model._vc)] = ("ite", cond_v, ("sv", sv, a), ("sv", sv, b))
             return True
         if ft1:
             self.vec, self.ver = s1
@@ -416,6 +467,7 @@ class Solver:
 
     def __init__(self, pdb, name):
         self.pdb, self.name = pdb, name
+        self.symmetric = name.endswith("_cg")          # CG is claimed for symmetric (positive definite) matrices only
         self.fn = pdb.fn("%s::%s" % (S64, name))
         self.ok = self.fn is not None
         if not self.ok:
@@ -480,6 +532,24 @@ class Solver:
         live = [v for v in cands if any(any(x is self.main for x in ancestors(m)) for _, m in ctx.mutations.get(v, []))]
         return (live or cands or [None])[0]
 
+    def run_entry(self):
+        """Abstract state at loop entry: the statements before the main loop, applied to the parameters."""
+        m = Model(self.pdb, self.fn, self.ctx, self.vec_vars, {}, ())
+        m.counter = None
+        m.symmetric = self.symmetric
+        body = self.fn["body"]
+        while body.get("k") != "Block" and body.get("e") is not None:
+            body = strip(body["e"])
+        for s in body.get("stmts", []):
+            inner = strip(s["e"]) if s.get("k") != "Let" and s.get("e") is not None else None
+            if inner is self.main:
+                return m
+            if any(n is self.main for n in walk(s)):
+                raise Unclassified("the main loop is nested in a statement of the function body")
+            if not m.stmt(s):
+                raise Unclassified("the function body never reaches the main loop")
+        return m
+
     def run_body(self, hyps=()):
         """Run the abstract interpreter over the loop body once per first-iteration case.  Returns list of Models."""
         models = []
@@ -489,7 +559,7 @@ class Solver:
             assume = cases.pop()
             m = Model(self.pdb, self.fn, self.ctx, self.vec_vars, assume, hyps)
             m.counter = self.counter
-            m.symmetric = self.name == "solve_cg"
+            m.symmetric = self.symmetric
             try:
                 body = self.main["body"]
                 if self.main.get("k") == "While":
@@ -509,7 +579,7 @@ def image_hypotheses(sv):
     invariant Q = A*P (QMR's s/d).  Kept only if the loop body re-establishes them (greatest fixpoint)."""
     ctx = sv.ctx
     zeros = []
-    for v in sv.vec_vars:
+    for v in sorted(sv.vec_vars, key=lambda v_: (v_[0], _pos(getattr(ctx.binds.get(v_[1]), "node", None) or {}), repr(v_))):   # declaration order: deterministic
         if v[0] != "var":
             continue
         b = ctx.binds.get(v[1])
@@ -966,7 +1036,7 @@ def rule_recurrence(rep, sv, name, r):
             rep.add("residual-tracks-iterate/%s/%s" % (name, case),
                     "within one iteration *x receives sum c_i*P_i iff the residual receives -sum c_i*A*P_i with the same coefficients (r + A*x is preserved by the loop body)",
                     not z, sv.main, "r_end - r_top + A*(x_end - x_top) = %s" % (_show_vec(z, ctx) if z else "0"), proof=True)
-        for kind, node, vecs, vers, payload in m.exits:
+        for kind, node, vecs, vers, payload, _conds in m.exits:
             if kind != "ok":
                 continue
             R, defs, cmpop = tested_vector(sv, node)
